@@ -50,6 +50,7 @@ type termPlan struct {
 	Race                bool   `json:"race_build"`
 	Delay               int    `json:"strace_recvfrom_delay_us"`
 	RestartUnderTraffic bool   `json:"restart_under_traffic"`
+	Shrink              bool   `json:"templates_shrink_in_later_cycles"`
 }
 
 type termWitness struct {
@@ -140,8 +141,37 @@ func runTermPlan(run *mon.Run, p termPlan, dir string, st *termStats) {
 	// exporters and their templates (one per protocol), accumulated over the cycles
 	var exps []*exporterT
 	o := wire.GenOpts{Elems: snapE, Reduced: true, MaxFields: 6, MaxStrLen: 10}
+	setTemplates := func(e *exporterT, maxFields int, minFields int) {
+		for _, proto := range []string{"ipfix", "nf9"} {
+			oo := o
+			oo.MaxFields = maxFields
+			oo.Varlen = proto == "ipfix"
+			oo.OnlyPEN0 = true
+			id := uint16(256)
+			if old := e.Tpl[proto]; old != nil {
+				id = old.ID
+			} else {
+				id = uint16(256 + g.Intn(4))
+			}
+			var t *wire.Template
+			for {
+				t = wire.GenTemplate(g, id, oo)
+				if len(t.All()) >= minFields {
+					break
+				}
+			}
+			t.Options, t.Fields, t.Scope = false, t.All(), nil
+			s := wire.Set{Kind: wire.SetTemplate, Templates: []*wire.Template{t}}
+			e.Tpl[proto] = t
+			e.TplD[proto], _ = wire.EncodeFlow(proto, []uint32{1, 2, 3, 4}, []wire.Set{s})
+		}
+	}
 	newExporter := func(n int) *exporterT {
 		e := &exporterT{IP: net.IPv4(127, byte(1+p.Index%200), byte(n/250), byte(1+n%250)).To4(), Tpl: map[string]*wire.Template{}, TplD: map[string][]byte{}}
+		if p.Shrink {
+			setTemplates(e, 30, 15)
+			return e
+		}
 		for _, proto := range []string{"ipfix", "nf9"} {
 			oo := o
 			oo.Varlen = proto == "ipfix"
@@ -369,7 +399,26 @@ func runTermPlan(run *mon.Run, p termPlan, dir string, st *termStats) {
 		if cycle > 0 {
 			nNew = 1 + p.Exporters/4
 		}
+		if p.Shrink && cycle > 0 {
+			// no new exporters; every exporter re-announces its template id with a much smaller definition, so
+			// that the cache saved at the end of this cycle is SHORTER than the file left by the previous one
+			nNew = 0
+			for _, e := range exps {
+				setTemplates(e, 1, 1)
+			}
+			for k := range acked {
+				delete(acked, k) // acknowledgements refer to the superseded definitions
+			}
+			tmu.Lock()
+			for q := range sentSeq {
+				delete(sentSeq, q)
+			}
+			tmu.Unlock()
+		}
 		first := len(exps)
+		if p.Shrink && cycle > 0 {
+			first = 0
+		}
 		for i := 0; i < nNew; i++ {
 			exps = append(exps, newExporter(first+i))
 		}
@@ -646,6 +695,9 @@ func termMain(args mon.Args) {
 	for i := 0; i < run.Pick(4, 40); i++ {
 		plans = append(plans, termPlan{Index: 500 + i, Seed: run.Seed, Shape: "burst", When: "after-ack", Signal: "TERM", Cycles: 8, Exporters: 30, Workers: 4, Elements: true, RestartUnderTraffic: true})
 	}
+	for i := 0; i < run.Pick(2, 10); i++ {
+		plans = append(plans, termPlan{Index: 700 + i, Seed: run.Seed, Shape: "burst", When: "after-ack", Signal: []string{"TERM", "INT"}[i%2], Cycles: 3, Exporters: 25, Workers: 4, Shrink: true})
+	}
 	for i := 0; i < run.Pick(3, 0); i++ {
 		plans = append(plans, termPlan{Index: 2000 + i, Seed: run.Seed, Shape: "flood", When: "after-ack", Signal: "TERM", Cycles: 2, Exporters: 60, Workers: 2, Delay: 3000000})
 	}
@@ -685,7 +737,7 @@ func termMain(args mon.Args) {
 			os.MkdirAll(pdir, 0o755)
 			runTermPlan(run, p, pdir, st)
 			run.Eval(1)
-			run.Distinct(fmt.Sprintf("%s|%s|%s|c%d|e%d|w%d|el%v|race%v|delay%d|rut%v", p.Shape, p.When, p.Signal, p.Cycles, p.Exporters, p.Workers, p.Elements, p.Race, p.Delay, p.RestartUnderTraffic))
+			run.Distinct(fmt.Sprintf("%s|%s|%s|c%d|e%d|w%d|el%v|race%v|delay%d|rut%v|shrink%v", p.Shape, p.When, p.Signal, p.Cycles, p.Exporters, p.Workers, p.Elements, p.Race, p.Delay, p.RestartUnderTraffic, p.Shrink))
 			if pi == 1 {
 				run.Sample(p)
 			}
@@ -709,7 +761,7 @@ func termMain(args mon.Args) {
 	if st.decodedAfterRestart == 0 && args.Replay == "" {
 		run.HarnessError("no acknowledged template was ever probed after a restart: the monitor observed nothing")
 	}
-	run.SetRule("the real vflow binary with private ports/pid/cache files and a TCP sink (rawSocket producer); exporters emulated from 127.x.y.z source addresses. Plans enumerate traffic shape {idle, steady, burst of template announcements from 1-500 exporters, flood with 1 worker} × signal time {after acknowledgement, mid-burst, during start-up} × {SIGTERM, SIGINT} × 2-4 stop/start cycles on the same files × elements file installed or not × restart under continuing traffic; thorough adds the race-built binary and strace recvfrom delay injection (3 s) that stalls the read loop across the shutdown window. Oracles: exit status 0, no panic/fatal on stderr, exit within 10 s, both cache files complete JSON and loadable with every template whose data had been seen at the sink before the signal, and after the restart data sent WITHOUT templates for every such (exporter,template) is published and equals the stand-alone decode. distinct = plan descriptor")
+	run.SetRule("the real vflow binary with private ports/pid/cache files and a TCP sink (rawSocket producer); exporters emulated from 127.x.y.z source addresses. Plans enumerate traffic shape {idle, steady, burst of template announcements from 1-500 exporters, flood with 1 worker} × signal time {after acknowledgement, mid-burst, during start-up} × {SIGTERM, SIGINT} × 2-4 stop/start cycles on the same files × elements file installed or not × restart under continuing traffic, plus plans in which every exporter re-announces a much smaller template in later cycles (the saved cache shrinks); thorough adds the race-built binary and strace recvfrom delay injection (3 s) that stalls the read loop across the shutdown window. Oracles: exit status 0, no panic/fatal on stderr, exit within 10 s, both cache files complete JSON and loadable with every template whose data had been seen at the sink before the signal, and after the restart data sent WITHOUT templates for every such (exporter,template) is published and equals the stand-alone decode. distinct = plan descriptor")
 	run.Assume("'within a few seconds' = 10 s (the one wall-clock verdict: the property is about wall-clock time); signals are sent only after the collector has bound its sockets (a signal before signal.Notify kills any program)")
 	run.Assume("'acknowledged' = a data message using that template was already seen at the sink before the signal was sent")
 	run.Finish()
